@@ -105,12 +105,12 @@ pub async fn guarded<T: Send + 'static>(f: impl std::future::Future<Output = T> 
         let v = f.await;
         *s2.lock().unwrap() = Some(v);
     });
-    let done = pump(&mut [&mut t], || slot.lock().unwrap().is_some(), Duration::from_secs(20)).await;
+    let done = pump(&mut [&mut t], || slot.lock().unwrap().is_some(), Duration::from_secs(60)).await;
     if let Some(p) = t.panicked {
         return Err(format!("panic: {p}"));
     }
     if !done {
-        return Err("hang: the call did not return within 20 s".into());
+        return Err("hang: the call did not return within 60 s".into());
     }
     Ok(slot.lock().unwrap().take().unwrap())
 }
